@@ -24,8 +24,7 @@ EXPLANATION = (
     "negative, mixed, tied, infinite) is non-increasing in the objective, at least `offset`, and None for infinite "
     "values. NOT decided: sampling frequencies; the DE selections' index arithmetic; panics on degenerate parameters "
     "(tournament size 0, empty populations for samplers) that the operators do not document as errors.")
-ASSUMPTIONS = ["rand's choose / choose_multiple return members of the slice (choose_multiple: distinct ones)",
-               "reverse_rank returns dense ranks with 1 for the lowest objective (pinned by six unit tests)"]
+ASSUMPTIONS = ["rand's choose / choose_multiple return members of the slice (choose_multiple: distinct ones)"]
 
 SEL = "mahf::components::selection::"
 SELT = SEL + "Selection"
@@ -336,6 +335,7 @@ def iter_vals(interp, env, w):
 
 
 def run(ctx):
+    ctx.guard("C11.R7", "dense ranks", lambda: r7_reverse_rank(ctx))
     ctx.guard("C11.R6", "`better` is the numeric order of the objective values (ties incl. -0.0 / +0.0 are ties)", lambda: __import__("c09").r3_total_order(ctx, "C11.R6"))
     ctx.guard("C11.K17", "constructor fidelity", lambda: __import__("ctor").check_for(ctx, "C11", 28))
     ctx.guard("C11.R1", "signature", lambda: r1_signature(ctx))
@@ -539,3 +539,30 @@ def r5_sampling_operators(ctx):
         total += cnt
         ctx.check(not bad, "C11.R5", fn.key, "de-group-format", "objectives %s, y=%s: %s" % (bad[0] if bad else ("", "", "")), detail="%d scenarios" % cnt, loc=fn.loc())
     ctx.count("sampling_operator_scenarios", total)
+
+
+def r7_reverse_rank(ctx):
+    """K6 (itertools' sorted_by_key / group_by modelled): reverse_rank over every weak ordering of up to 4 objective values
+    (ties included) returns, per individual in population order, its DENSE rank: 1 for the lowest value, equal values equal
+    ranks, the next distinct value the next rank - what the rank-based operators (R4 / R5 answer it from this table) rely on."""
+    from orderings import weak_orderings
+    F = ctx.facts
+    fn = F.fn(SEL + "functional::reverse_rank")
+    SO = "mahf::problems::objective::single::SingleObjective"
+    bad = []
+    n = 0
+    for size in range(0, 5):
+        for order in (weak_orderings(size) if size else [()]):
+            vals = [float(3 * r - 4) for r in order]
+            pop = tuple(Agg("adt", c07.IND, "Individual", [Sym("s%d" % i), some(Agg("adt", SO, "SingleObjective", [v]))]) for i, v in enumerate(vals))
+            it = install(Interp(fn.body, chain(coll_oracle, std_oracle), [Vec("pop", borrowed=True)], facts=F, inline=INL, max_visits=40))
+            it.init_state = {"heap": {"pop": pop}, "next_vec": 0}
+            n += 1
+            sv = sorted(set(vals))
+            want = [sv.index(v) + 1 for v in vals]
+            for p in it.run():
+                got = list(p.mstate["heap"].get(p.ret.vid, ())) if p.end == "return" and isinstance(p.ret, Vec) else None
+                if got != want:
+                    bad.append((vals, "yields %s, expected the dense ranks %s" % (got if got is not None else (p.end, str(p.ret)), want)))
+    ctx.check(not bad, "C11.R7", fn.key, "dense-ranks-lowest-first", "objective values %s: reverse_rank %s" % (bad[0] if bad else ("", "")), detail="%d orderings" % n, loc=fn.loc())
+    ctx.count("rank_scenarios", n)
